@@ -20,10 +20,20 @@ let eval case impl =
     let code_i = int_of_string code in
     let reason_b = bytes_of_hex reason in
     let inner = String.sub fields 1 (String.length fields - 2) in
-    let user = if inner = "" then [] else List.map (fun e -> match split_on ':' e with
-        | [n; v] -> (bytes_of_hex n, bytes_of_hex v) | _ -> failwith "bad field") (split_on ',' inner) in
+    (* entries: `n:v` add, `=n:v` replace, `-n` remove, `!L<n>` / `!L-` set_content_length, `!T` set_transfer_encoding_chunked *)
+    let op_of (e : string) : M.hop =
+      let nv s = match split_on ':' s with [n; v] -> (bytes_of_hex n, bytes_of_hex v) | _ -> failwith "bad field" in
+      let tl = String.sub e 1 (String.length e - 1) in
+      match e.[0] with
+      | '=' -> let (n, v) = nv tl in M.OReplace (n, v)
+      | '-' -> M.ORemove (bytes_of_hex tl)
+      | '!' -> if tl = "T" then M.OSetChunked
+        else if tl = "L-" then M.OSetCL None
+        else M.OSetCL (Some (n_of_int (int_of_string (String.sub tl 1 (String.length tl - 1)))))
+      | _ -> let (n, v) = nv e in M.OAdd (n, v) in
+    let ops = if inner = "" then [] else List.map op_of (split_on ',' inner) in
     let h0 = if dflag = "d" then M.new_headers else M.new_nodate in
-    let h = List.fold_left (fun h (n, v) -> M.add0 h n v) h0 user in
+    let h = List.fold_left M.hstep h0 ops in
     let ps = if pieces = "-" then [] else List.map bytes_of_hex (split_on ',' pieces) in
     let body = List.concat ps in
     let acc1 = if acc = "-" then 1 lsl 40 else int_of_string (List.hd (split_on ',' acc)) in
@@ -40,10 +50,10 @@ let eval case impl =
     let icanon = show_msg iraw ^ " " ^ ist in
     (* spec: what the message must decode to, from the inputs alone *)
     let start = if ep = "Q" then "PUT /t HTTP/1.1" else Printf.sprintf "HTTP/1.1 %d %s" code_i (string_of_bytes reason_b) in
-    let is_cl (n, _) = lower (string_of_bytes n) = "content-length" in
-    let stored = List.filter (fun f -> not (is_cl f)) user in
-    let declared_cl = List.fold_left (fun a (n, v) -> if is_cl (n, v) then (try Some (int_of_string (String.trim (string_of_bytes v))) with _ -> None) else a) None user in
-    let declared_chunked = List.exists (fun (n, v) -> lower (string_of_bytes n) = "transfer-encoding" && lower (string_of_bytes v) = "chunked") user in
+    (* the header set as the independent store (Spec/HeaderStore.v) sees the same operations *)
+    let stored = List.fold_left M.store_step [] ops in
+    let declared_cl = match M.spec_cl ops with Some n -> Some (int_of_n n) | None -> None in
+    let declared_chunked = M.eval_chunked stored in
     let datef = if dflag = "d" then [(bytes_of_string "date", bytes_of_string "Thu, 01 Jan 1970 00:00:00 GMT")] else [] in
     let blen = List.length body in
     let ok =
